@@ -2,7 +2,7 @@
      path   0 transport.aclose  1 aclose_forcefully  2 TLS wrap  3 endpoint.aclose  4 AsyncTCPNetworkClient.aclose
             5 _ConnectedClientAPI.aclose  6 client task teardown  7 teardown after the handler called client.aclose()
      tr     L [A 0; base] | L [A 1; L [A std; A unwrap_points; A handshake_points]; base]
-     base   L [A 0; A leaf; A m] | L [A 1; send; recv]
+     base   L [A 0; A leaf; A m; (A 1 = the real asyncio socket adapter, m = 0)?] | L [A 1; send; recv]
      lock   1: a sender is suspended holding the send lock (and the endpoint's guard)
      labels 0 complete | 1 OSError | 2 cancel | 3 timed scope expires
      second 1: when the first close is over, close again (same path) with the remaining labels
@@ -20,7 +20,7 @@ Fixpoint dec_base (fuel : nat) (x : sx) : option base :=
   | 0 => None
   | S f =>
       match x with
-      | L [A 0%Z; i; m] => match as_nat i, as_nat m with Some i', Some m' => Some (BLeaf i' m') | _, _ => None end
+      | L (A 0%Z :: i :: m :: _) => match as_nat i, as_nat m with Some i', Some m' => Some (BLeaf i' m') | _, _ => None end
       | L [A 1%Z; s; r] => match dec_base f s, dec_base f r with Some s', Some r' => Some (BStapled s' r') | _, _ => None end
       | _ => None
       end
